@@ -1460,9 +1460,14 @@ def rule_W3(repo: Repo) -> RuleResult:
             want = (0 if vnull else 1) - (1 if evicted_nonnull else 0)
             desc = p.describe()[:80]
             # infeasible combinations (fullness decided both ways) are filtered like in W1
-            fulls = {pol for t, pol in p.conds if isinstance(t, ast.Name) and t.id.endswith("full")} | \
+            full_names = {s_.targets[0].id for s_ in walk_no_nested(f.node) if isinstance(s_, ast.Assign) and len(s_.targets) == 1
+                          and isinstance(s_.targets[0], ast.Name) and isinstance(s_.value, ast.Compare)
+                          and isinstance(s_.value.comparators[0], ast.Name) and s_.value.comparators[0].id == window}
+            fulls = {pol for t, pol in p.conds if isinstance(t, ast.Name) and t.id in full_names} | \
                     {not pol for t, pol in p.conds if isinstance(t, ast.UnaryOp) and isinstance(t.op, ast.Not)
-                     and isinstance(t.operand, ast.Name) and t.operand.id.endswith("full")}
+                     and isinstance(t.operand, ast.Name) and t.operand.id in full_names} | \
+                    {True for t, pol in p.conds if pol is True and isinstance(t, ast.BoolOp) and isinstance(t.op, ast.And)
+                     and any(isinstance(v, ast.Name) and v.id in full_names for v in t.values)}
             if len(fulls) > 1:
                 continue
             if d_nn == want:
